@@ -17,10 +17,12 @@ CLAIMED = {
         text="Structural necessary conditions, decided exhaustively over every rule instance in the resolved program: each of the 72 public LP "
              "modifiers x 3 sync modes performs exactly the effects the mode demands on every non-aborting CFG path (real LP, rational LP, "
              "range-type arrays, solution invalidation); both mutations of one modifier draw their values from the same parameters / the "
-             "rational getter of the same quantity; bulk sync points re-derive the range types; the two range-type classifiers agree; the "
-             "range-type arrays are never read where no rational LP exists; permutation removals remap the arrays consistently. Not a proof "
-             "of the behavioural statement: exactness of conversions and the LP classes' own arithmetic are not decided.",
-        technique="CFG must-pass-through / reachability under finite sync-mode assumptions over the clang-resolved AST; decision-table comparison",
+             "rational getter of the same quantity; bulk sync points re-derive the range types; the two range-type classifiers agree and use one "
+             "notion of infinity (the INFTY parameter); the range-type arrays are never read where no rational LP exists; permutation removals "
+             "remap the arrays consistently; the arrays are reset wherever a rational LP object is created; the rational LP is never assigned "
+             "from a persistently scaled real LP; no tolerance comparison decides what the rational LP stores. Not a proof of the behavioural "
+             "statement: exactness of conversions and the LP classes' own arithmetic are not decided.",
+        technique="CFG must-pass-through / reachability under finite sync-mode and scaling-state assumptions over the clang-resolved AST; decision-table comparison; type-directed tolerance-comparison lint",
         ref="DESIGN.md section 4, C07"),
 }
 
@@ -118,8 +120,8 @@ CLAIMED['C09'] = dict(
          "index, position inside a sparse vector); LP numbers are written by the scalers only as spxLdexp(old, int) and exponents only from "
          "integer expressions; user-level accessors never go through the _scaler pointer; writeFile(unscale) writes an unscaled copy with the same "
          "arguments; the per-row/per-column arrays including the scale exponents move together in every permutation, removal and resize; "
-         "single-index setters compare new and stored value in the same space. Not a proof that scalers choose good exponents or that ldexp does "
-         "not overflow.",
+         "single-index setters compare new and stored value in the same space; doAddRow(s) / doAddCol(s) read the other dimension's exponents only "
+         "after missing columns / rows have been created. Not a proof that scalers choose good exponents or that ldexp does not overflow.",
     technique="linear-form extraction over exponent arrays with a weight table (units-of-measure style), index-domain inference, parallel-array co-movement and guard-shape rules over the clang-resolved AST",
     ref="DESIGN.md section 4, C09")
 
@@ -142,9 +144,11 @@ CLAIMED['C12'] = dict(
          "re-implementation of the reader's pattern language, MPS tokens through strcmp literals and switch case labels) and each bound indicator "
          "and row sense is composed with the reader arm it selects; real and rational code use the same tables; default names have one format "
          "everywhere; the LP writer prints 17 significant digits before any number is written and MPS uses %.15; in the rational readers no "
-         "floating-point function or temporary lies between a token and its Rational (positive controls fire). Not a proof that the re-read LP is "
-         "equivalent; the dual writer is not covered.",
-    technique="writer-token vs reader-recogniser table composition, constant/precision rules and a type-directed float-detour lint over the clang-resolved AST",
+         "floating-point function or temporary lies between a token and its Rational (positive controls fire); no writer cuts a name (a %s conversion "
+         "with a precision only for strings bounded by it); every formatted record fits the buffer it is printed into (maximal conversion widths, %f "
+         "bounded only under a dominating magnitude test); the writers are total over row / bound kinds (no arm of a split on infinite sides throws); "
+         "the zero stripping of the number parser always leaves a digit. Not a proof that the re-read LP is equivalent; the dual writer is not covered.",
+    technique="writer-token vs reader-recogniser table composition, constant/precision rules, printf-format width analysis against buffer extents, case-split totality and a type-directed float-detour lint over the clang-resolved AST",
     ref="DESIGN.md section 4, C12")
 
 CLAIMED['C05'] = dict(
@@ -166,8 +170,9 @@ CLAIMED['C03'] = dict(
          "become true only from exact tolerance comparisons of violations that were computed from one solution, or under an acceptor (rational "
          "reconstruction, exact factorization), and OPTIMAL is assigned only under primalFeasible && dualFeasible; violations and tolerances are "
          "Rational and no floating-point value enters a Rational where violations are computed; the rational objective value is objective times "
-         "primal in the user's sense plus the objective offset wherever it is computed. Not a proof that refinement converges or that the "
-         "transformations and the reconstruction test are right inside.",
+         "primal in the user's sense plus the objective offset wherever it is computed; with a persistently scaled real LP the exact solver undoes the "
+         "scaling before its first refinement / floating-point solve step. Not a proof that refinement converges or that the transformations and the "
+         "reconstruction test are right inside.",
     technique="typestate-style bracket checking on the CFG under parameter assumptions, provenance rules for acceptance flags, type-directed conversion lint over the clang-resolved AST",
     ref="DESIGN.md section 4, C03")
 
@@ -212,12 +217,14 @@ CLAIMED['C02'] = dict(
     ref="DESIGN.md section 4, C02")
 
 CLAIMED['C19'] = dict(
-    text="Two ownership clauses only: every container / vector class that releases a raw-pointer member in its destructor has user-provided or deleted "
-         "copy operations that never copy that pointer verbatim; the address shift returned by the arena reallocators reaches the re-basing code at "
-         "every call site, or its discard is structurally justified (arena's own class, full rebuild, clear of every dependent container, offsets "
-         "instead of pointers). The abstract-data-type behaviour itself (key stability, dense numbering, permutations, hash-table deletion, vector "
-         "arithmetic, sorting) quantifies over operation sequences and contents and is NOT decided.",
-    technique="rule-of-three and returned-shift dataflow rules over class facts and resolved call sites",
+    text="Ownership and removal-shape clauses only: every container / vector class that releases a raw-pointer member in its destructor has user-provided or "
+         "deleted copy operations that never copy that pointer verbatim; the address shift returned by the arena reallocators reaches the re-basing code "
+         "at every call site, or its discard is structurally justified; removal by permutation in LPRowSetBase / LPColSetBase moves the parallel arrays "
+         "for all old indices (bound taken before the removal); no do-while loop is controlled by a countdown that can be zero at entry (positive "
+         "control); remove(nums, n) is never implemented by removing one renumbering element at a time; in SVSetBase the amount inserted in place after "
+         "ensureMem(E) is bounded by E. The abstract-data-type behaviour itself (key stability, dense numbering, permutation results, hash-table "
+         "deletion, vector arithmetic, sorting) quantifies over operation sequences and contents and is NOT decided.",
+    technique="rule-of-three and returned-shift dataflow rules over class facts and resolved call sites; loop-bound provenance, countdown-loop shape, sequential-removal shape and reservation/consumption comparison over the clang-resolved AST",
     ref="DESIGN.md section 4, C19")
 
 NA = {
